@@ -28,7 +28,7 @@ pub struct Case {
 pub struct C20;
 
 const VOCAB: &[&str] = &[
-    "the", "cat", "Cat", "a", "unit-test", "it's", "fish.", "(fish)", "42", "x1", "über", "ﬁsh", "中文", "e\u{301}t", "a_b", "don't", "cat,", "!?", "x\u{301}y", "o👍🏽k",
+    "the", "cat", "Cat", "a", "unit-test", "it's", "fish.", "(fish)", "42", "x1", "über", "ﬁsh", "中文", "e\u{301}t", "a_b", "don't", "cat,", "!?", "x\u{301}y", "o👍🏽k", gen::GIANT,
     // characters that a text format for save/load could mistake for syntax
     "#tag", "c#", "##", ";x", "//", "\"q\"", "a:b", "%",
 ];
